@@ -241,14 +241,14 @@ structure CacheOk (dbs : List Db) (k : Nat) (st : State) : Prop where
   mem : ∀ q v, st.mem.lookup q = some v → evalSql q (dbs.getD k []) = some v
   disk : ∀ q v, st.disk.lookup q = some v → evalSql q (dbs.getD k []) = some v
 
-theorem lookup_cons_sql (q q' : SqlSel) (v : ORel) (l : List (SqlSel × ORel)) :
+private theorem lookup_cons_sql (q q' : SqlSel) (v : ORel) (l : List (SqlSel × ORel)) :
     ((q, v) :: l).lookup q' = if q' = q then some v else l.lookup q' := by
   by_cases h : q' = q
   · subst h; simp [List.lookup]
   · have : (q' == q) = false := by simpa using h
     simp [List.lookup, this, h]
 
-theorem read_fresh (dbs : List Db) (k : Nat) (st : State) (hst : CacheOk dbs k st) (f : Feed)
+private theorem read_fresh (dbs : List Db) (k : Nat) (st : State) (hst : CacheOk dbs k st) (f : Feed)
     (hk : f.kind = .alchemy) (hs : f.storage = k) (s : Source) :
     (FeedCache.read st f s).2 = readRows f.srcs s (dbs.getD k []) ∧ CacheOk dbs k (FeedCache.read st f s).1 := by
   unfold FeedCache.read readRows
@@ -288,7 +288,7 @@ theorem read_fresh (dbs : List Db) (k : Nat) (st : State) (hst : CacheOk dbs k s
             · subst hq; simp at h'; subst h'; exact he'
             · simp [hq] at h'; exact hst.disk q' v' h'
 
-theorem run_fresh (feeds : List Feed) (dbs : List Db) (k : Nat) (hf : allOn k feeds = true) :
+private theorem run_fresh (feeds : List Feed) (dbs : List Db) (k : Nat) (hf : allOn k feeds = true) :
     ∀ (ops : List FeedCache.Op) (st : State), noMutate ops = true → CacheOk dbs k st → run feeds st ops = fresh feeds dbs ops
   | [], _, _, _ => rfl
   | .read i s :: ops, st, hn, hst => by
